@@ -8,6 +8,7 @@ import Pymc.Model.Readers
 import Pymc.Model.ServerSpec
 import Pymc.Model.Client
 import Pymc.Model.ApiSpec
+import Pymc.Model.Conn
 /-! Line-protocol driver of the Lean models (one request per line, one reply line per request).
     Rejects what it cannot parse (`bad-op`), never defaults. -/
 open Bytes
@@ -344,6 +345,48 @@ def handleStateful (d : DState) (ws : List String) : Option (DState × String) :
     pure (d.set i s', s!"ok res={showExcept r} clean={if clean then 1 else 0}")
   | _ => none
 
+/-! ### C06 -/
+def showConnEv : Conn.Ev → String
+  | .created id a => s!"created:{id}:{a}"
+  | .wrapped w r => s!"wrapped:{w}:{r}"
+  | .nodelay id => s!"nodelay:{id}"
+  | .settimeout id .connect => s!"toc:{id}"
+  | .settimeout id .io => s!"toi:{id}"
+  | .keepalive id => s!"ka:{id}"
+  | .connect id a => s!"connect:{id}:{a}"
+  | .close id => s!"close:{id}"
+  | .assign id => s!"assign:{id}"
+  | .unassign => "unassign"
+
+def showConnErr : Conn.Err → String
+  | .gai => "gai" | .socket a => s!"socket:{a}" | .nodelay a => s!"nodelay:{a}" | .wrap a => s!"wrap:{a}"
+  | .settimeout => "settimeout" | .keepalive => "keepalive" | .connect => "connect"
+
+/-- `conn cfg=<unix><nodelay><tls><keepalive> naddr=N fail=a,b,… prev=<id|none> next=<n> [orig=1]` -/
+def handleConn (ws : List String) : Option String := do
+  let c ← arg ws "cfg"
+  let cfg : Conn.Cfg ← match c.toList with
+    | [u, n, t, k] => some { unix := u = '1', noDelay := n = '1', tls := t = '1', keepalive := k = '1' }
+    | _ => none
+  let naddr ← (← arg ws "naddr").toNat?
+  let f ← arg ws "fail"
+  let fails := if f = "-" then [] else f.splitOn ","
+  let idxs : String → List Nat := fun pre =>
+    fails.filterMap fun x => if x.startsWith (pre ++ ":") then (x.drop (pre.length + 1)).toString.toNat? else none
+  let p : Conn.Plan := {
+    naddr := naddr, gai := fails.contains "gai",
+    socket := fun i => (idxs "socket").contains i, nodelay := fun i => (idxs "nodelay").contains i,
+    wrap := fun i => (idxs "wrap").contains i,
+    settimeoutConnect := fails.contains "toc", keepalive := fails.contains "ka", connect := fails.contains "connect",
+    settimeoutIo := fails.contains "toi" }
+  let prev ← arg ws "prev"
+  let next ← (← arg ws "next").toNat?
+  let st : Conn.St := { sock := prev.toNat?, next := next }
+  let (st', r, log) := if (arg ws "orig") = some "1" then Conn.connectOrig cfg p st else Conn.connect cfg p st
+  let res := match r with | .ok _ => "ok" | .error e => "err:" ++ showConnErr e
+  let sock := match st'.sock with | some s => toString s | none => "none"
+  pure s!"ok res={res} sock={sock} next={st'.next} leaked={(Conn.leaked log st'.sock).length} log={",".intercalate (log.map showConnEv)}"
+
 def handle (ws : List String) : String :=
   let r : Option String :=
     match ws with
@@ -366,6 +409,7 @@ def handle (ws : List String) : String :=
     | "nodename" :: rest => handleNodeName rest
     | "reader" :: rest => handleReader rest
     | "call" :: rest => handleCall rest
+    | "conn" :: rest => handleConn rest
     | _ => none
   r.getD "bad-op"
 
